@@ -18,7 +18,23 @@ def check(chk):
     chk.rule('C33.insert', 'SortedSet.add inserts at _find_insertion(item) only when the element there differs; append otherwise; __contains__/remove compare the element at that position')
     chk.rule('C33.accumulate', 'union / intersection / difference over several operands apply each step to the accumulated result')
     chk.rule('C33.inplace', 'in-place operators replace _items by the items of the corresponding SortedSet result')
+    chk.rule('C33.alias', 'no two containers share one backing list: `<x>._items = <y>._items` only moves the list out of a temporary created in the same function; copies go through list(...)')
     m = chk.repo.mod(UTIL)
+    _alias_rule(chk, m)
+    # an element may itself be a tuple: '%r' % element would take it as the argument list
+    chk.rule('C33.fmt', 'SortedSet / OrderedMap: a %-format whose right operand is an element / key name wraps it in a tuple')
+    nf = 0
+    for q, f in m.functions():
+        if not (q.startswith('SortedSet.') or q.startswith('OrderedMap')):
+            continue
+        params = set(a.arg for a in f.args.args) - set(['self'])
+        for n in body_walk(f):
+            if isinstance(n, ast.BinOp) and isinstance(n.op, ast.Mod) and isinstance(n.left, ast.Constant) and isinstance(n.left.value, str):
+                nf += 1
+                chk.judge(not (isinstance(n.right, ast.Name) and n.right.id in params), 'C33.fmt', n, '%s: %s' % (q, src(n)[:60]),
+                          'a caller-supplied element is the bare right operand of %: a tuple element (frozen tuple / UDT value) makes the formatting fail with TypeError instead of the intended error')
+    if nf < 2:
+        raise AnalysisError('C33.fmt: %-format sites not found')
     for cname in ('OrderedMap', 'OrderedMapSerializedKey'):
         c = m.cls(cname)
         for f in c.body:
@@ -114,3 +130,32 @@ def check(chk):
         a = [st for st in f.body if isinstance(st, ast.Assign)]
         good = len(a) == 2 and src(a[0].value) == res and src(a[1].targets[0]) == 'self._items' and src(a[1].value) == '%s._items' % src(a[0].targets[0]) and src(f.body[-1]) == 'return self'
         chk.judge(good, 'C33.inplace', f, '%s: self._items = (%s)._items; return self' % (op, res), 'in-place operator changed')
+
+
+def _alias_rule(chk, util):
+    n = 0
+    for cname in ('SortedSet', 'OrderedMap'):
+        for q, f in util.functions():
+            if not q.startswith(cname + '.'):
+                continue
+            params = set(a.arg for a in f.args.args)
+            fresh = set()
+            for st in body_walk(f):
+                if isinstance(st, ast.Assign) and isinstance(st.targets[0], ast.Name) and isinstance(st.value, ast.Call):
+                    fresh.add(st.targets[0].id)
+            for st in body_walk(f):
+                val = None
+                what = None
+                if isinstance(st, ast.Assign) and any(isinstance(t, ast.Attribute) and t.attr == '_items' for t in st.targets):
+                    val, what = st.value, src(st.targets[0])
+                elif isinstance(st, ast.Return) and st.value is not None and q.split('.')[-1] not in ('__iter__', '__reversed__'):
+                    val, what = st.value, 'return'
+                if val is None or not (isinstance(val, ast.Attribute) and val.attr == '_items' and isinstance(val.value, ast.Name)):
+                    continue
+                n += 1
+                owner = val.value.id
+                ok = owner in fresh and owner not in params
+                chk.judge(ok, 'C33.alias', st, '%s: %s <- %s._items (a temporary built in this method)' % (q, what, owner),
+                          '%s hands the backing list of `%s` to another container without copying: mutating one of them in place changes the other' % (q, owner))
+    if n < 4:
+        raise AnalysisError('C33.alias: expected at least 4 list hand-overs (the in-place operators), found %d' % n)
